@@ -147,7 +147,8 @@ CLAIMS = {
        "for a rule NAME defined several times the console summary table drops SKIP when another definition passed or failed, the "
        "structured report lists the name under both. No Kani harness serves this property."
        "Added later: the SARIF fold pushes exactly one result per message of a failing check ((0, 0) when the message has no location - never dropped); sarif-vs-json replay; the per-rules-file exit-code fold obligations of C06 also run here."
-       " Added last: JUnit escaping sites (every attribute reaches quick-xml as (&str, &str), every text / element through an escaping constructor - enumerated from MIR, with a replay on paths / messages / test names containing & < > quotes, marks compared with -o json); SARIF per-file step (what a data file contributes does not depend on the files before it).",
+       " Added last: JUnit escaping sites (every attribute reaches quick-xml as (&str, &str), every text / element through an escaping constructor - enumerated from MIR, with a replay on paths / messages / test names containing & < > quotes, marks compared with -o json); SARIF per-file step (what a data file contributes does not depend on the files before it)."
+       " Library entry: the String returned is the writer's complete contents (defect D18 found and fixed: BufWriter::buffer() returned only the unflushed tail, reports above 8 KiB came back truncated).",
   design="0b/C07"),
  "C08": dict(
   text="Panic-freedom (Kani's panic/overflow/bounds/unwrap checks) of every harnessed kernel for all inputs in its bound, in particular "
